@@ -63,7 +63,7 @@ def random_case(rnd, idx):
         ops += ["drop"] * handles if rnd.random() < 0.7 else []
         progs.append(" ; ".join(ops) if ops else "ping")
     nd = rnd.randrange(1, 5)
-    total = sum(3 * len(p.split(";")) for p in progs) + 4 * nd + 4
+    total = sum(4 * len(p.split(";")) for p in progs) + 5 * nd + 4
     sched = [rnd.randrange(0, n + 1) for _ in range(rnd.randrange(total // 2, total + 6))]
     return case_text("r%d" % idx, n, progs, nd, sched)
 
